@@ -103,10 +103,6 @@ Proof. intros HK st. apply usersig_problem_reported. apply wf_run_sigs. exact HK
 (* ------------------------------------------------------------------------------------------ *)
 (* decidable forms of the hypotheses *)
 
-Definition sigs_distinctb (S : smap sigobj) : bool :=
-  forallb (fun a => forallb (fun b => String.eqb (fst a) (fst b) ||
-                                       negb (String.eqb (so_uid (snd a)) (so_uid (snd b)))) S) S.
-
 Lemma sigs_distinctb_sound S : sigs_distinctb S = true -> sigs_distinct S.
 Proof.
   unfold sigs_distinctb, sigs_distinct. intros H k1 o1 k2 o2 H1 H2 Hne.
@@ -115,38 +111,14 @@ Proof.
   apply negb_true_iff, String.eqb_neq in H. exact H.
 Qed.
 
-Fixpoint K1_fromb (ob : objects) (evs : list event) : bool :=
-  match evs with
-  | [] => true
-  | ev :: r => sigs_distinctb (ob_sig (apply_event ob ev)) && K1_fromb (apply_event ob ev) r
-  end.
-
 Lemma K1_fromb_sound evs : forall ob, K1_fromb ob evs = true -> K1_from ob evs.
 Proof.
   induction evs as [|ev r IH]; intros ob H; cbn in *; [exact I|].
   apply andb_true_iff in H. destruct H as [H1 H2]. split; [apply sigs_distinctb_sound; exact H1|apply IH; exact H2].
 Qed.
 
-Definition K1_histb (evs : list event) : bool := K1_fromb objs0 evs.
 Lemma K1_histb_sound evs : K1_histb evs = true -> K1_hist evs.
 Proof. apply K1_fromb_sound. Qed.
-
-Definition is_none {A} (o : option A) : bool := match o with None => true | Some _ => false end.
-
-Definition f21_freeb (ob : objects) : bool :=
-  forallb (fun kp =>
-    match po_reqs (snd kp) with
-    | None => true
-    | Some l =>
-        forallb (fun r =>
-          match rq_tag r with
-          | None => true
-          | Some t =>
-              negb (is_none (tf_opt (rq_min r)) && is_none (tf_opt (rq_max r))) ||
-              forallb (fun ks => negb (String.eqb (so_tag (snd ks)) t) || is_none (tf_opt (so_rev (snd ks))))
-                      (ob_sig ob)
-          end) l
-    end) (ob_pol ob).
 
 Lemma f21_freeb_sound ob : f21_freeb ob = true -> f21_free ob.
 Proof.
